@@ -121,7 +121,7 @@ def partial_trace(rho:np.ndarray, dim:tuple[int], keep_index:set[int]):
     for x in tmp2:
         tmp1[x] = x
     tmp3 = list(keep_index) + [x+N0 for x in keep_index]
-    N1 = np.prod([dim[x] for x in keep_index])
+    N1 = int(np.prod([dim[x] for x in keep_index])) #np.prod([]) is the float 1.0
     ret = np.einsum(rho, tmp0+tmp1, tmp3, optimize=True).reshape(N1, N1)
     return ret
 
